@@ -42,7 +42,6 @@ def SmallFrame : Frame → Prop
   | .ping _ p => p.length = 8
   | .rstStream _ code => 0 ≤ code ∧ code < 4294967296
   | .windowUpdate _ _ => True
-  | .goaway _ code [] => 0 ≤ code ∧ code < 4294967296
   | _ => False
 
 def FramesOk (fs : List Frame) : Prop := ∀ f ∈ fs, SmallFrame f
@@ -70,10 +69,6 @@ theorem smallFrame_ser (f : Frame) (h : SmallFrame f) : (∃ b, f.serialize? = s
   case settings ack items =>
     cases ack <;> cases items <;> simp_all [SmallFrame]
     simp [Frame.serialize?, Frame.body?, Frame.bodyLen, Frame.typeCode, Frame.flagByte, u8?]
-  case goaway last code extra =>
-    cases extra <;> simp_all [SmallFrame]
-    obtain ⟨b, hb, hl⟩ := u32?_some code h.1 h.2
-    simp [Frame.serialize?, Frame.body?, Frame.bodyLen, hb, hl, Frame.typeCode, Frame.flagByte, u8?, be32]
 
 
 /-! ### leaf lemmas -/
@@ -86,25 +81,36 @@ theorem mapM_some {α β} (g : α → Option β) (l : List α) (h : ∀ a ∈ l,
     obtain ⟨bs, hbs⟩ := ih (fun x hx => h x (List.mem_cons_of_mem _ hx))
     exact ⟨b :: bs, by simp [List.mapM_cons, hb, hbs]⟩
 
-/-- `_prepare_for_sending` of frames that are small and serialisable only appends to the output -/
-theorem wp_prepareForSending {Q : Unit → Conn → Prop} {E : Exc → Conn → Prop} (fs : List Frame) (c : Conn)
-    (hw : 16384 ≤ c.maxOutFrame) (hf : FramesOk fs) (hq : ∀ o, Q () { c with out := o }) :
+/-- `_prepare_for_sending` of frames that serialise and fit the smallest frame size limit only appends to the output
+    (and to the history of sent frames) -/
+theorem wp_prepareForSending_ser {Q : Unit → Conn → Prop} {E : Exc → Conn → Prop} (fs : List Frame) (c : Conn)
+    (hw : 16384 ≤ c.maxOutFrame) (hf : ∀ f ∈ fs, (∃ b, f.serialize? = some b) ∧ f.bodyLen ≤ 16384)
+    (hq : ∀ o, Q () { c with out := o, sent := c.sent ++ fs }) :
     wp (prepareForSending fs) Q E c := by
   unfold prepareForSending
   wps
   split
-  · exact hq c.out
-  · obtain ⟨bs, hbs⟩ := mapM_some Frame.serialize? fs (fun f hf' => (smallFrame_ser f (hf f hf')).1)
+  · rename_i hemp
+    have : fs = [] := by cases fs <;> simp_all
+    subst this
+    have := hq c.out
+    simpa using this
+  · obtain ⟨bs, hbs⟩ := mapM_some Frame.serialize? fs (fun f hf' => (hf f hf').1)
     rw [hbs]
     wps
     have : (fs.all fun f => decide ((f.bodyLen : Int) ≤ c.maxOutFrame)) = true := by
       rw [List.all_eq_true]
       intro f hf'
-      have := (smallFrame_ser f (hf f hf')).2
+      have := (hf f hf').2
       simp only [decide_eq_true_eq]
       omega
     rw [if_pos this]
     exact hq _
+
+theorem wp_prepareForSending {Q : Unit → Conn → Prop} {E : Exc → Conn → Prop} (fs : List Frame) (c : Conn)
+    (hw : 16384 ≤ c.maxOutFrame) (hf : FramesOk fs) (hq : ∀ o, Q () { c with out := o, sent := c.sent ++ fs }) :
+    wp (prepareForSending fs) Q E c :=
+  wp_prepareForSending_ser fs c hw (fun f hf' => smallFrame_ser f (hf f hf')) hq
 
 theorem conn_closed_only_by_goaway : ∀ s i t, connTable s i = some t → t = .CLOSED →
     (s = .CLOSED ∨ i = .SEND_GOAWAY ∨ i = .RECV_GOAWAY) := by
